@@ -16,7 +16,8 @@ Mid == {ArrV(s) : s \in SeqsUpTo(SmallLeaves, 2)}
 M3 == IF Deep3 THEN {ArrV(s) : s \in SeqsFromTo(Mid, 1, 2)} ELSE {}        \* depth 3
 
 A == Col("a")
-Wheres == {None, CmpE(">", A, LN(1)), CmpE("=", A, LN(3)), NotE(CmpE("<", A, LN(5)))}
+\* (the last one reads the document next to the table through the back-reference: w = 3 in every document)
+Wheres == {None, CmpE(">", A, LN(1)), CmpE("=", A, LN(3)), NotE(CmpE("<", A, LN(5))), CmpE("=", A, ColP(<<"<-", "w">>))}
 Sels == {<<Star>>, <<Item(A, "")>>, <<Item(Bin("+", A, LN(1)), "b")>>,          \* b = a + 1: projecting twice would show
          <<Item(A, "x"), Item(Col("b"), "")>>}
 MFrom == Table(<<"m">>, "")
@@ -24,7 +25,7 @@ MixFrom == [k |-> "sel", as |-> "", sel |-> <<[fn |-> "mix", steps |-> <<[k |-> 
 
 Init ==
     /\ \E m \in M2 \cup M3 : \E w \in Wheres : \E sl \in Sels : \E f \in {MFrom, MixFrom} :
-          cs = [fam |-> IF f = MFrom THEN "nested" ELSE "mix", doc |-> Obj1("m", m),
+          cs = [fam |-> IF f = MFrom THEN "nested" ELSE "mix", doc |-> ObjV([x \in {"m", "w"} |-> IF x = "m" THEN m ELSE NumV(3)]),
                 q |-> [BaseQ EXCEPT !.sel = sl, !.where = w, !.from = f]]
     /\ EngineInit
 Next == EngineNext
@@ -32,7 +33,7 @@ Spec == Init /\ [][Next]_vars
 
 ---------------------------------------------------------------------------
 Src == cs.doc.f["m"]
-Flat(rows) == RunQ([cs.q EXCEPT !.from = Table(<<"r">>, "")], Obj1("r", ArrV(rows)))
+Flat(rows) == RunQ([cs.q EXCEPT !.from = Table(<<"r">>, "")], ObjV([x \in {"r", "w"} |-> IF x = "r" THEN ArrV(rows) ELSE cs.doc.f["w"]]))
 
 IsLeafArr(x) == IsArr(x) /\ \A i \in DOMAIN x.e : ~IsArr(x.e[i])
 \* the query applied inside every innermost array, nesting preserved
